@@ -11,7 +11,7 @@ READY = True
 CLAIM = {
     "text": "Lean theorems for all token lists / pointer strings without leading blanks or backslashes: print(parse s) = s, "
             "tokens(parse(spell ts)) = ts, equality is equality of reference tokens for every constructor (parse, from_parts, join, parent), "
-            "join/parent/relative/resolve laws; model tied to pointer.py by differential execution over ALL token sequences of length <= 3 "
+            "join/parent/relative/resolve laws, is_relative_to = proper token-wise extension (a strict order); model tied to pointer.py by differential execution over ALL token sequences of length <= 3 "
             "over an 21-token alphabet and join/parent chains, and the laws are evaluated directly on the implementation.",
     "note": "Trusted: Lean kernel; model JP.Pointer validated differentially; unicode-escape codec abstract (fast path modelled); "
             "int-like tokens beyond +-(2^53-1) excluded (constructor rejects them: known finding C04-KF1).",
@@ -193,6 +193,7 @@ def evaluate(ctx, cases):
             meta.append((c, "eq")); reqs.append({"op": "ping"})
     outs = ctx.driver.run(reqs, jobs=ctx.jobs)
     seen_case = set()
+    rel_reqs, rel_meta = [], []
     for (c, what), m in zip(meta, outs):
         k = c["kind"]
         cid = id(c)
@@ -288,6 +289,22 @@ def evaluate(ctx, cases):
             got = (pa == pb)
             if got != want or (want and hash(pa) != hash(pb)):
                 ctx.violation("two pointers are equal exactly when their reference-token sequences are equal, however constructed", c, got, want)
+            # is_relative_to: the implementation against the statement of `relative_iff_proper_extension` (a proper extension,
+            # token for token) and, below, against the model's `isRelativeTo` on the very parts the two pointers hold
+            la, lb = list(c["a"]), list(c["b"])
+            for x, y, lx, ly, tag in ((pa, pb, la, lb, "ab"), (pb, pa, lb, la, "ba")):
+                wrel = len(lx) > len(ly) and lx[:len(ly)] == ly
+                grel = core.outcome(lambda: x.is_relative_to(y))
+                if grel.get("ok") is not wrel:
+                    ctx.violation("a pointer is relative to another exactly when its reference tokens are the other's followed by at least one more",
+                                  dict(c, direction=tag), grel.get("ok", grel.get("err")), wrel)
+                rel_reqs.append({"op": "ptr.rel", "a": [v if isinstance(v, int) and not isinstance(v, bool) else str(v) for v in x.parts],
+                                 "b": [v if isinstance(v, int) and not isinstance(v, bool) else str(v) for v in y.parts]})
+                rel_meta.append((dict(c, direction=tag), grel.get("ok"), x == y))
+    if rel_reqs:
+        for (c, grel, geq), m in zip(rel_meta, ctx.driver.run(rel_reqs, jobs=ctx.jobs)):
+            if m.get("relative") is not grel or m.get("eq") is not geq:
+                ctx.mismatch("ptr.rel", c, {"relative": grel, "eq": geq}, {"relative": m.get("relative"), "eq": m.get("eq")})
 
 
 def _join_laws(ctx, c, s, q):
